@@ -26,8 +26,9 @@ open NitroVerif.RefCount
     * counting invariant: `refCount = held references + references carried by Closes parked before
       their decrement` (so it is never negative);
     * `s` has been moved to the dead list at most once, and exactly once iff its count is 0 and no
-      closer is still parked before `CLOSE_RETIRE s`; while the count is positive nobody is at
-      `CLOSE_RETIRE s`; at most one thread ever is;
+      closer is still parked before `CLOSE_RETIRE s` (`snapshots.Delete`) or `CLOSE_RETIRE2 s`
+      (`gcsnapshots.Insert`); while the count is positive nobody is at either point; at most one
+      thread ever is;
     * once the count is 0 it stays 0 along every continuation, and every `Open` on `s` that returns
       during that continuation returns false. -/
 theorem C08_zero_is_final (cfg : Cfg) (hO : cfg.fixedOpen = true) (n k : Nat)
@@ -35,9 +36,9 @@ theorem C08_zero_is_final (cfg : Cfg) (hO : cfg.fixedOpen = true) (n k : Nat)
     (hrun : exec cfg (init n k) sched = some (st, evs)) (s : Nat) (h1 : 1 ≤ s) (h2 : s ≤ k) :
     refs st s = (held st s : Int) + (closing st s : Int)
     ∧ retiredCount st s ≤ 1
-    ∧ (retiredCount st s = 1 ↔ refs st s = 0 ∧ retiring st s = 0)
-    ∧ (refs st s ≠ 0 → retiring st s = 0)
-    ∧ retiring st s ≤ 1
+    ∧ (retiredCount st s = 1 ↔ refs st s = 0 ∧ retiring st s = 0 ∧ retiring2 st s = 0)
+    ∧ (refs st s ≠ 0 → retiring st s = 0 ∧ retiring2 st s = 0)
+    ∧ retiring st s + retiring2 st s ≤ 1
     ∧ (refs st s = 0 → ∀ (sched' : List (Nat × Act)) (st' : St) (evs' : List Ev),
         exec cfg st sched' = some (st', evs') →
           refs st' s = 0 ∧ ∀ b, Ev.retOpen s b ∈ evs' → b = false) := by
@@ -45,7 +46,7 @@ theorem C08_zero_is_final (cfg : Cfg) (hO : cfg.fixedOpen = true) (n k : Nat)
   have h2' : s ≤ st.snaps.length := by omega
   have hc := hinv.count s h1 h2'
   have hr := hinv.retire s h1 h2'
-  rw [closing_eq, retiring_eq]
+  rw [closing_eq, retiring_eq, retiring2_eq]
   unfold refs held retiredCount
   refine ⟨hc, ?_, ?_, ?_, ?_, ?_⟩
   · split at hr <;> omega
@@ -192,7 +193,8 @@ theorem C08_open_iff (cfg : Cfg) (hO : cfg.fixedOpen = true) (n k : Nat)
 /-- Facts about the collector frontier that hold in **every** reachable state (not only at
     quiescence): the dead list is strictly ascending, contains only fully released snapshots
     numbered above `lastGCSn` (so nothing at or below the frontier is ever re-queued and can block
-    the in-order test of `collectDead` for good); what was handed to the workers is exactly
+    the in-order test of `collectDead` for good); a snapshot whose closer is between its two list
+    operations (`CLOSE_RETIRE2`) is in neither list and fully released; what was handed to the workers is exactly
     `1, …, lastGCSn`, in order, each once; all of those were fully released; the collector flag is
     held by exactly one thread inside `COLLECT_READ … GC_UNLOCK`, or by none. -/
 theorem C08_frontier_sound (cfg : Cfg) (hO : cfg.fixedOpen = true) (n k : Nat)
@@ -203,7 +205,8 @@ theorem C08_frontier_sound (cfg : Cfg) (hO : cfg.fixedOpen = true) (n k : Nat)
     ∧ st.sent = List.range' 1 st.lastGCSn
     ∧ st.lastGCSn ≤ k
     ∧ (∀ s, 1 ≤ s → s ≤ st.lastGCSn → refs st s = 0 ∧ retiredCount st s = 1 ∧ s ∉ st.dead)
-    ∧ (∀ s, s ∈ st.live ↔ 1 ≤ s ∧ s ≤ k ∧ retiredCount st s = 0)
+    ∧ (∀ s, s ∈ st.live ↔ 1 ≤ s ∧ s ≤ k ∧ retiredCount st s = 0 ∧ retiring2 st s = 0)
+    ∧ (∀ s, 1 ≤ s → s ≤ k → 0 < retiring2 st s → s ∉ st.live ∧ s ∉ st.dead ∧ refs st s = 0)
     ∧ cnt uCrit st.ths = (if st.flag then 1 else 0) := by
   obtain ⟨hinv, hlen⟩ := reach_inv hO hrun
   unfold refs retiredCount
@@ -213,7 +216,7 @@ theorem C08_frontier_sound (cfg : Cfg) (hO : cfg.fixedOpen = true) (n k : Nat)
     split at this
     · assumption
     · omega
-  refine ⟨hinv.dead_sorted, ?_, hinv.sent, by have := hinv.gc_le; omega, ?_, ?_, hinv.excl⟩
+  refine ⟨hinv.dead_sorted, ?_, hinv.sent, by have := hinv.gc_le; omega, ?_, ?_, ?_, hinv.excl⟩
   · intro s hs
     obtain ⟨h1, h2, h3⟩ := hinv.dead_valid s hs
     have hr := (hinv.place s h1 h2).mpr (Or.inl hs)
@@ -225,7 +228,23 @@ theorem C08_frontier_sound (cfg : Cfg) (hO : cfg.fixedOpen = true) (n k : Nat)
     intro hm
     have := (hinv.dead_valid s hm).2.2
     omega
-  · intro s; rw [← hlen]; exact hinv.live_iff s
+  · intro s; rw [← hlen, retiring2_eq]; exact hinv.live_iff s
+  · intro s h1 h2 hpos
+    rw [retiring2_eq] at hpos
+    have h2' : s ≤ st.snaps.length := by omega
+    have hr := hinv.retire s h1 h2'
+    have hz : (getS st s).refs = 0 := by
+      by_cases e : (getS st s).refs = 0
+      · exact e
+      · simp only [e, if_false] at hr; omega
+    simp only [hz, if_true] at hr
+    refine ⟨?_, ?_, hz⟩
+    · intro hm
+      have := ((hinv.live_iff s).mp hm).2.2.2
+      omega
+    · intro hm
+      have := (hinv.place s h1 h2').mpr (Or.inl hm)
+      omega
 
 /-- **C08_collector_progress** (= the hand-off part of C06).  In every reachable **quiescent** state
     (no call in progress), for any number of threads and snapshots and any schedule:
@@ -252,19 +271,21 @@ theorem C08_collector_progress (cfg : Cfg) (hO : cfg.fixedOpen = true) (hG : cfg
         (refs st s = 0 → retiredCount st s = 1) ∧ (0 < refs st s → s ∈ st.live))
     ∧ st.flag = false := by
   obtain ⟨hinv, hlen⟩ := reach_inv hO hrun
-  obtain ⟨_, hdead, hsent, hle, hsentz, hlive, hexcl⟩ := C08_frontier_sound cfg hO n k sched st evs hrun
+  obtain ⟨_, hdead, hsent, hle, hsentz, hlive, _, hexcl⟩ :=
+    C08_frontier_sound cfg hO n k sched st evs hrun
   have hnot : (st.lastGCSn + 1) ∉ st.dead := by
     intro hm
     have := hinv.resp hG hm
     have h0 : cnt uResp st.ths = 0 := cnt_all_idle uResp st.ths hq rfl
     omega
   have hret0 : ∀ s, cnt (uRet s) st.ths = 0 := fun s => cnt_all_idle (uRet s) st.ths hq rfl
+  have hret20 : ∀ s, cnt (uRet2 s) st.ths = 0 := fun s => cnt_all_idle (uRet2 s) st.ths hq rfl
   have hiff : ∀ s, 1 ≤ s → s ≤ k → (refs st s = 0 ↔ (s ∈ st.dead ∨ s ≤ st.lastGCSn)) ∧
       (refs st s = 0 → retiredCount st s = 1) := by
     intro s h1 h2
     have h2' : s ≤ st.snaps.length := by omega
     have hr := hinv.retire s h1 h2'
-    rw [hret0 s] at hr
+    rw [hret0 s, hret20 s] at hr
     have hp := hinv.place s h1 h2'
     unfold refs retiredCount
     constructor
@@ -293,8 +314,8 @@ theorem C08_collector_progress (cfg : Cfg) (hO : cfg.fixedOpen = true) (hG : cfg
   · intro s h1 h2
     refine ⟨(hiff s h1 h2).1, (hiff s h1 h2).2, ?_⟩
     intro hpos
-    rw [hlive]
-    refine ⟨h1, h2, ?_⟩
+    rw [hlive, retiring2_eq]
+    refine ⟨h1, h2, ?_, hret20 s⟩
     have hr := hinv.retire s h1 (by omega)
     unfold refs at hpos
     unfold retiredCount
@@ -327,17 +348,17 @@ def demo : List (Nat × Act) :=
   ++ [(1, .start (.cls 1))] ++ steps 1 1           -- T1: 1 → 0, parked at CLOSE_RETIRE 1
   ++ steps 0 2                                     -- T0: CAS fails, re-load sees 0: `ret false`
   ++ [(2, .start (.opn 2))] ++ steps 2 2           -- T2 opens snapshot 2: `ret true` (count 2)
-  ++ steps 1 8                                     -- T1 retires 1, GC sends it, re-check, returns
+  ++ steps 1 9                                     -- T1 retires 1 (two steps), GC sends it, re-check, returns
   ++ [(2, .start (.cls 2))] ++ steps 2 1           -- 2 → 1, returns
-  ++ [(0, .start (.cls 2))] ++ steps 0 9           -- 1 → 0, retire, GC sends 2
+  ++ [(0, .start (.cls 2))] ++ steps 0 10          -- 1 → 0, retire (two steps), GC sends 2
 
 theorem demo_runs :
     exec fixedCfg (init 3 2) demo =
       some ({ snaps := [⟨0, 0, 1⟩, ⟨0, 0, 1⟩], live := [], dead := [], lastGCSn := 2, flag := false,
               sent := [1, 2], ths := [.idle, .idle, .idle] },
             [.parked, .parked, .parked, .parked, .parked, .retOpen 1 false, .parked, .parked,
-             .retOpen 2 true, .parked, .parked, .parked, .parked, .parked, .parked, .parked, .ret,
-             .parked, .ret, .parked, .parked, .parked, .parked, .parked, .parked, .parked, .parked,
+             .retOpen 2 true, .parked, .parked, .parked, .parked, .parked, .parked, .parked, .parked, .ret,
+             .parked, .ret, .parked, .parked, .parked, .parked, .parked, .parked, .parked, .parked, .parked,
              .parked, .ret]) := by decide
 
 /-- non-vacuity of `C08_zero_is_final`: its hypotheses are met by the prefix of `demo` after which
@@ -367,8 +388,29 @@ example : ∃ st evs, exec fixedCfg (init 3 2) demo = some (st, evs) ∧ quiesce
 
 /-- a quiescent state in which retired snapshots wait behind an open one: close 2 and 3, keep 1 -/
 example : ∃ st evs, exec fixedCfg (init 1 3)
-      ([(0, .start (.cls 3))] ++ steps 0 7 ++ [(0, .start (.cls 2))] ++ steps 0 7) = some (st, evs) ∧
+      ([(0, .start (.cls 3))] ++ steps 0 8 ++ [(0, .start (.cls 2))] ++ steps 0 8) = some (st, evs) ∧
     quiescent st = true ∧ st.dead = [2, 3] ∧ st.lastGCSn = 0 ∧ refs st 1 = 1 := by
+  refine ⟨_, _, rfl, by decide, by decide, by decide, by decide⟩
+
+/-- a `Close` held between its two list operations while the other open snapshot is fully closed:
+    T0 has deleted snapshot 1 from the live list and is parked at `CLOSE_RETIRE2 1`; T1 closes
+    snapshot 2 completely and its collector pass runs with an EMPTY live list and `dead = [2]` -/
+def betweenListsSched : List (Nat × Act) :=
+  [(0, .start (.cls 1))] ++ steps 0 2       -- T0: 1→0, `snapshots.Delete(1)`: parked at CLOSE_RETIRE2 1
+  ++ [(1, .start (.cls 2))] ++ steps 1 8    -- T1: 1→0, both list operations, GC: head 2 ≠ 1, re-check, returns
+
+/-- non-vacuity of the "in neither list" clauses, and the expected behaviour in the interleaving that
+    a "drain the dead list when no snapshot is live" shortcut in `collectDead` gets wrong (TEST):
+    with the live list empty and `dead = [2]` the collector hands over nothing, because snapshot 1 —
+    in neither list — is not collected yet; when T0 proceeds, 1 and 2 are handed over in order -/
+example : ∃ st evs, exec fixedCfg (init 2 2) betweenListsSched = some (st, evs) ∧
+    st.ths = [.closeRetire2 1, .idle] ∧ retiring2 st 1 = 1 ∧ retiredCount st 1 = 0 ∧ refs st 1 = 0 ∧
+    st.live = [] ∧ st.dead = [2] ∧ st.lastGCSn = 0 ∧ st.sent = [] ∧ st.flag = false := by
+  refine ⟨_, _, rfl, by decide, by decide, by decide, by decide, by decide, by decide, by decide,
+    by decide, by decide⟩
+
+example : ∃ st evs, exec fixedCfg (init 2 2) (betweenListsSched ++ steps 0 10) = some (st, evs) ∧
+    quiescent st = true ∧ st.sent = [1, 2] ∧ st.lastGCSn = 2 ∧ st.dead = [] := by
   refine ⟨_, _, rfl, by decide, by decide, by decide, by decide⟩
 
 /-! ## Witness: the repair of `Open` is necessary (`fixedOpen = false`, the original test-then-add) -/
@@ -376,10 +418,10 @@ example : ∃ st evs, exec fixedCfg (init 1 3)
 /-- the unfixed-`Open` schedule of DESIGN.md §C08 "Known" -/
 def unfixedOpenSched : List (Nat × Act) :=
   [(0, .start (.opn 1)), (0, .step false)]        -- T0 loads 1, parked before the increment
-  ++ [(1, .start (.cls 1))] ++ steps 1 9           -- T1 closes 1 → 0, retires it, GC hands it over
+  ++ [(1, .start (.cls 1))] ++ steps 1 10          -- T1 closes 1 → 0, retires it, GC hands it over
   ++ [(0, .step false)]                            -- T0 increments 0 → 1: `Open` returns TRUE
-  ++ [(0, .start (.cls 1))] ++ steps 0 7           -- its Close retires snapshot 1 a second time
-  ++ [(1, .start (.cls 2))] ++ steps 1 7           -- snapshot 2 is closed: queued behind 1
+  ++ [(0, .start (.cls 1))] ++ steps 0 8           -- its Close retires snapshot 1 a second time
+  ++ [(1, .start (.cls 2))] ++ steps 1 8           -- snapshot 2 is closed: queued behind 1
   ++ [(1, .start .gc)] ++ steps 1 4                -- an explicit GC() does not help
 
 /-- **WITNESS (a `decide`d concrete schedule, not a theorem about all schedules).**
@@ -392,7 +434,7 @@ def unfixedOpenSched : List (Nat × Act) :=
 theorem C08_unfixed_counterexample :
     ∃ st evs, exec { fixedOpen := false, fixedGC := true } (init 2 2) unfixedOpenSched = some (st, evs)
       ∧ quiescent st = true
-      ∧ evs.idxOf (Ev.retOpen 1 true) = 12 ∧ evs.idxOf Ev.ret = 11   -- true AFTER the final Close returned
+      ∧ evs.idxOf (Ev.retOpen 1 true) = 13 ∧ evs.idxOf Ev.ret = 12   -- true AFTER the final Close returned
       ∧ retiredCount st 1 = 2
       ∧ st.dead = [1, 2] ∧ st.lastGCSn = 1 ∧ st.sent = [1]
       ∧ (st.lastGCSn + 1) ∈ st.dead
@@ -410,8 +452,8 @@ example : exec fixedCfg (init 2 2) unfixedOpenSched = none := by decide
 /-- two `Close` calls race: T0 holds the collector flag and has already looked at the dead list when
     T1 retires the collectable snapshot and loses the try-lock -/
 def lostTriggerSched : List (Nat × Act) :=
-  [(0, .start (.cls 2))] ++ steps 0 5     -- T0: 1→0, retire 2, CLOSE_GC, flag taken, reads head 2 ≠ 1: at GC_UNLOCK
-  ++ [(1, .start (.cls 1))] ++ steps 1 4  -- T1: 1→0, retire 1, CLOSE_GC, try-lock fails: returns
+  [(0, .start (.cls 2))] ++ steps 0 6     -- T0: 1→0, retire 2 (two steps), CLOSE_GC, flag taken, reads head 2 ≠ 1: at GC_UNLOCK
+  ++ [(1, .start (.cls 1))] ++ steps 1 5  -- T1: 1→0, retire 1 (two steps), CLOSE_GC, try-lock fails: returns
   ++ steps 0 1                            -- T0 drops the flag and returns
 
 /-- **WITNESS (a `decide`d concrete schedule).**  With the original `GC` (`fixedGC = false`; `Open`
